@@ -14,6 +14,7 @@ if rc != 0:
     print("patch does not apply:", o); sys.exit(2)
 meta = json.load(open(os.path.join(dst, "meta.json")))
 results = meta.get("checks_run", {})
+EVBAK = {p: open('/verif/evidence/%s.json' % p).read() for p in props if os.path.exists('/verif/evidence/%s.json' % p)}
 try:
     for p in props:
         t0 = time.time()
@@ -23,6 +24,8 @@ try:
         print(p, "exit", rc); print("\n".join(l[:260] for l in lines[:6]))
 finally:
     sh("git -C /repo checkout -- .")
+    for p, t in EVBAK.items():  # evidence must describe the unchanged tree, not the seeded change
+        open('/verif/evidence/%s.json' % p, 'w').write(t)
 meta["checks_run"] = results
 meta["caught_by"] = [p for p, r in results.items() if r["exit"] == 1]
 json.dump(meta, open(os.path.join(dst, "meta.json"), "w"), indent=1)
